@@ -118,6 +118,19 @@ nni_url_decode(uint8_t *out, const char *in, size_t max_len)
 	return (len);
 }
 
+// url_escapes_ok returns true if every '%' in the string starts a %XX escape.
+static bool
+url_escapes_ok(const char *s)
+{
+	for (; *s != '\0'; s++) {
+		if ((*s == '%') &&
+		    ((!isxdigit((uint8_t) s[1])) || (!isxdigit((uint8_t) s[2])))) {
+			return (false);
+		}
+	}
+	return (true);
+}
+
 nng_err
 nni_url_canonify_uri(char *out)
 {
@@ -440,6 +453,15 @@ nni_url_parse_inline_inner(nng_url *url, const char *raw)
 		url->u_hostname[i] = (char) tolower(url->u_hostname[i]);
 	}
 
+	// Percent escapes in the user info and in a registered name must be
+	// well formed.  (A bracketed IPv6 literal may carry a raw '%' that
+	// introduces its zone identifier, so it is not examined.)
+	if (((url->u_userinfo != NULL) && (!url_escapes_ok(url->u_userinfo))) ||
+	    ((url->u_hostname[0] != '[') &&
+	        (!url_escapes_ok(url->u_hostname)))) {
+		return (NNG_EINVAL);
+	}
+
 	if ((rv = nni_url_canonify_uri(p)) != 0) {
 		return (rv);
 	}
@@ -578,7 +600,9 @@ nng_url_sprintf(char *str, size_t size, const nng_url *url)
 	if (url->u_port != 0 && url->u_port == nni_url_default_port(scheme)) {
 		do_port = false;
 	}
-	if (strchr(host, ':') != 0) {
+	// A host with a ':' or a raw '%' (zone identifier) can only have come
+	// from a bracketed literal, and only parses again inside brackets.
+	if ((strchr(host, ':') != 0) || (!url_escapes_ok(host))) {
 		hostob = "[";
 		hostcb = "]";
 	}
